@@ -74,6 +74,17 @@ class Run:
         real = []
         nknown = 0
         rdir = os.path.join(os.environ.get("VERIF_EVIDENCE_DIR") or VERIF, "replay", self.pid)
+        seen_keys = set()
+        dedup = []
+        for v in viol:
+            fk = (v["rule"], v["key"])
+            if fk in seen_keys:
+                v["verdict"] = "DUPLICATE"
+                continue
+            seen_keys.add(fk)
+            dedup.append(v)
+        self.instances = [i for i in self.instances if i["verdict"] != "DUPLICATE"]
+        viol = dedup
         for v in viol:
             fullkey = "%s:%s" % (v["rule"], v["key"])
             k = known_open.get((self.pid, fullkey))
